@@ -143,6 +143,22 @@ def run_case(case):
                 why = 'q-above-cdf(upper-bound)'
         r.violation(f'{sig}:ppf-raises:{type(e).__name__}:{why}', f'{tag}: percent_point({Q33[i]!r}) raised '
                     f'{type(e).__name__}: {e}', case=case, probs=[float(Q33[j]) for j in raised])
+    # ---- probabilities next to the ends (1e-15 ... 1 - 1.2e-16; scipy's own inverses misbehave for denormal probabilities, which are left out): never an error, and ordered with the quantiles above ----
+    if not raised:
+        ext_lo, ext_hi = [1e-15, 1e-12], [1 - 1e-12, 1 - 1e-15, 1 - 1.2e-16]
+        for q in ext_lo + ext_hi:
+            try:
+                xq = float(call('percent_point', np.array([q]))[0])
+            except Exception as e:
+                r.violation(f'{sig}:ppf-raises:{type(e).__name__}:probability-next-to-{"0" if q < 0.5 else "1"}',
+                            f'{tag}: percent_point({q!r}) raised {type(e).__name__}: {e}', case=case)
+                break
+            ref_q = ppf[4] if q < 0.5 else ppf[-5]          # the 0.01 / 0.99 quantiles
+            if np.isnan(xq) or (q < 0.5 and xq > ref_q + 1e-9 * s) or (q > 0.5 and xq < ref_q - 1e-9 * s):
+                r.violation(f'{sig}:ppf-extreme-probability', f'{tag}: percent_point({q!r}) = {xq!r} is not '
+                            f'{"below" if q < 0.5 else "above"} the {"0.01" if q < 0.5 else "0.99"} quantile {ref_q!r}', case=case)
+                break
+        r.ev(5)
     okq = ~np.isnan(ppf)
     if np.isnan(ppf).any() and not raised:
         i = int(np.nonzero(np.isnan(ppf))[0][0])
@@ -430,6 +446,29 @@ def _const(r, model, c, sig, tag, case):
     if not (s1.shape == (1,) and s7.shape == (7,) and np.all(s1 == c) and np.all(s7 == c)):
         r.violation(f'{sig}:constant:sample', f'{tag}: sample(1)={s1.tolist()}, sample(7)={s7.tolist()}, expected {c}',
                     case=case)
+    # the same constant (when it is a small non-negative integer) given as UNSIGNED / NARROW integer data and queried at integer
+    # points of the same dtype: still the unit step at c
+    if float(c).is_integer() and 1 <= c <= 100:
+        ci = int(c)
+        for dt in (np.uint8, np.uint16, np.uint64, np.int8):
+            data = np.full(12, ci, dtype=dt)
+            pts_i = np.array([0, max(ci - 1, 0), ci, ci + 1, 120], dtype=dt)
+            want = [0.0 if v < ci else 1.0 for v in pts_i.tolist()]
+            try:
+                import copy
+                m2 = copy.deepcopy(model)
+                m2.fit(data)
+                got = np.asarray(m2.cumulative_distribution(pts_i.copy()), float)
+                qq = np.asarray(m2.percent_point(np.array([0.0, 0.5, 1.0])), float)
+                r.tr(3)
+            except Exception as e:
+                r.violation(f'{sig}:constant:integer-data:raises:{type(e).__name__}', f'{tag}: refitted on constant {dt.__name__} data '
+                            f'{ci}: raised {type(e).__name__}: {e}', case=case)
+                continue
+            if got.tolist() != want or not np.all(qq == ci):
+                r.violation(f'{sig}:constant:integer-data', f'{tag}: fitted on constant {dt.__name__} data {ci}: cdf at '
+                            f'{pts_i.tolist()} ({dt.__name__}) = {got.tolist()}, expected {want}; percent_point = {qq.tolist()}',
+                            case=case)
     r.outcome('constant')
     return r
 
